@@ -743,6 +743,54 @@ func (c *Ctx) redisClassEdges(r *redisRoles, r1, r2 string) {
 			}
 		}
 		c.Decide(r1, fn, "CasByVersion: version mismatch -> ErrConflict", nil, ok, "CasByVersion does not report ErrConflict on the stored != expected version edge")
+		// and nowhere else: every ErrConflict is on the mismatch edge of a stored record or on the lost-transaction edge
+		for _, f := range withClosures(fn) {
+			idx := ir.ErrResultIndex(f)
+			if idx < 0 {
+				continue
+			}
+			for _, ret := range ir.Returns(f) {
+				var check func(v ssa.Value, from, to *ssa.BasicBlock)
+				check = func(v ssa.Value, from, to *ssa.BasicBlock) {
+					if p, isPhi := v.(*ssa.Phi); isPhi {
+						for i, e := range p.Edges {
+							check(e, p.Block().Preds[i], p.Block())
+						}
+						return
+					}
+					if sentinel(v) != "ErrConflict" {
+						return
+					}
+					var facts []ir.Fact
+					if from != nil {
+						facts = append(ir.Facts(from), edgeFacts(from, to)...)
+					} else {
+						facts = ir.Facts(ret.Block())
+					}
+					okEdge := false
+					for _, ft := range facts {
+						if cm, isCmp := ft.Cmp(); isCmp {
+							if cm.Op == token.NEQ && ir.LoadedField(cm.X) == r.recVersion && ir.LoadedField(cm.Y) == r.recVersion {
+								okEdge = true
+							}
+							if cm.Op == token.EQL {
+								for _, side := range []ssa.Value{cm.X, cm.Y} {
+									if cv := ir.ConstVal(ir.Resolve(side)); cv != nil && cv.Kind() == constant.String && constant.StringVal(cv) == "redis: transaction failed" {
+										okEdge = true
+									}
+								}
+							}
+						}
+						ff := ft.StripNot()
+						if call, isCall := ff.Cond.(*ssa.Call); isCall && ff.True && strings.HasSuffix(ir.CalleeFullName(call), "errors.Is") {
+							okEdge = true
+						}
+					}
+					c.Decide(r1, f, "ErrConflict only for a stored record with another version", ret, okEdge, "CasByVersion reports ErrConflict on a path where no stored record was compared (nor the transaction lost): for a missing key the contract and the other backend say ErrNotExist")
+				}
+				check(ir.Resolve(ir.ResultValue(ret, idx)), nil, nil)
+			}
+		}
 	}
 	// Create: key present -> ErrExist with the stored version
 	{
@@ -827,5 +875,70 @@ func (c *Ctx) redisWaitResults(r *redisRoles, rule string) {
 	c.Decide(rule, fn, "poll sleeps cancellably", nil, okSel, "the polling waiter cannot be cancelled while it sleeps")
 	if n < 2 {
 		c.R.Errorf("%s matched %d exits of the redis waiter, below its floor of 2", rule, n)
+	}
+}
+
+// redisPollBounded is C07.W8: the sleep between two polls is bounded above by a constant.
+func (c *Ctx) redisPollBounded(r *redisRoles, rule string) {
+	fn := r.storage["WaitForVersionChange"]
+	n := 0
+	var bounded func(v ssa.Value, from, to *ssa.BasicBlock, depth int, seen map[ssa.Value]bool) bool
+	bounded = func(v ssa.Value, from, to *ssa.BasicBlock, depth int, seen map[ssa.Value]bool) bool {
+		if depth > 10 {
+			return false
+		}
+		if _, isC := ir.ConstInt(v); isC {
+			return true
+		}
+		var facts []ir.Fact
+		if from != nil {
+			facts = append(ir.Facts(from), edgeFacts(from, to)...)
+		} else if in, ok := v.(ssa.Instruction); ok {
+			facts = ir.Facts(in.Block())
+		}
+		for _, f := range facts {
+			cm, ok := f.Cmp()
+			if !ok {
+				continue
+			}
+			op, a, b := cm.Op, cm.X, cm.Y
+			if b == v {
+				a, b = b, a
+				op = ir.SwapOp(op)
+			}
+			if _, isC := ir.ConstInt(b); a == v && isC && (op == token.LEQ || op == token.LSS) {
+				return true
+			}
+		}
+		if p, ok := v.(*ssa.Phi); ok {
+			if seen[p] {
+				return true
+			}
+			seen[p] = true
+			for i, e := range p.Edges {
+				if !bounded(e, p.Block().Preds[i], p.Block(), depth+1, seen) {
+					return false
+				}
+			}
+			return true
+		}
+		return false
+	}
+	ir.Instrs(fn, func(in ssa.Instruction) {
+		call, ok := in.(*ssa.Call)
+		if !ok {
+			return
+		}
+		switch ir.CalleeFullName(call) {
+		case "time.NewTimer", "time.After", "time.Sleep", "time.NewTicker":
+		default:
+			return
+		}
+		n++
+		c.Decide(rule, fn, "poll interval bounded above", in, bounded(call.Call.Args[0], nil, nil, 0, map[ssa.Value]bool{}),
+			"the pause between two polls has no constant upper bound on some path (growing back-off without cap): a waiter that has been blocked for T notices a change up to T late")
+	})
+	if n == 0 {
+		c.Decide(rule, fn, "poll sleeps between polls", nil, false, "the polling waiter does not sleep between polls")
 	}
 }
